@@ -480,7 +480,41 @@ func genC14(c *lp.Ctx) {
 }
 
 // genC18: Stat.
+// genC18others: Stat of a trie must not change when OTHER tries are built, loaded or reset later in the same
+// process (level tables sharing a backing array, package-level templates).
+func genC18others(c *lp.Ctx) {
+	for it := 0; it < c.Pick(40, 200); it++ {
+		a := NewCase(c.Rng, gen.Any(c.Rng, c.Pick(60, 300)), "", "")
+		if c.Do(a.Line()) != "ok" {
+			continue
+		}
+		sa := c.Do("trie.stat")
+		a.checkStat(c, sa)
+		c.Do("trie.stash A")
+		for k := 0; k < 1+c.Rng.Intn(3); k++ {
+			b := NewCase(c.Rng, gen.Any(c.Rng, c.Pick(60, 300)), "", "")
+			if c.Do(b.Line()) != "ok" {
+				continue
+			}
+			b.checkStat(c, c.Do("trie.stat"))
+			if c.Rng.Intn(2) == 0 {
+				c.Do("trie.reload")
+			}
+			if c.Rng.Intn(3) == 0 {
+				c.Do("trie.reset")
+			}
+		}
+		c.Do("trie.unstash A")
+		c.Hit("history:stat(A),build/load/reset others,stat(A)")
+		c.Case(a.Key()+"/others", true)
+		if got := c.Do("trie.stat"); got != sa {
+			a.viol(c, "Stat of a trie is unchanged by building, loading or resetting OTHER tries", "trie.stat", sa, got)
+		}
+	}
+}
+
 func genC18(c *lp.Ctx) {
+	genC18others(c)
 	n := c.Pick(500, 1500)
 	size := c.Pick(300, 2000)
 	for it := 0; it < n; it++ {
